@@ -404,12 +404,24 @@ package transport
 //@   callsite exchangeConn: [C06:exchange-on-the-owned-conn] arg2 == c
 
 // ---- doh_transport.go -----------------------------------------------------------------------------
+// DoHTransport.exchange: the request goes to the configured URL - a private copy of the URL template in which only
+// the query string is replaced (scheme, host, path as configured; the template itself is never written) - through
+// the transport's own round tripper; only a 200 answer is decoded, from at most 65535 bytes of its body, and the
+// message returned owns its memory (the pooled read buffer is released afterwards).
 //@ func (u *DoHTransport) exchange(ctx context.Context, rawQuery string) (r *dnsmsg.Msg, err error)
-//@   trusted
-//@   requires u != nil
+//@   props C17 C20 C01
+//@   requires u != nil && u.reqTemplate != nil && u.urlTemplate != nil && u.rt != nil && ctx != nil
+//@   ghost gResp *http.Response = nil
+//@   ghost nRT int = 0
+//@   oncall RoundTrip: nRT = nRT + 1
+//@   aftercall RoundTrip: gResp = ret0
 //@   modifies nothing
 //@   ensures err == nil ==> r != nil && fresh(r)
 //@   ensures err != nil ==> r == nil
+//@   ensures [C17:one-request] nRT == 1
+//@   ensures [C17:only-a-200-answer-is-decoded] err == nil ==> gResp != nil && gResp.StatusCode == 200
+//@   callsite RoundTrip: [C17:request-goes-to-the-configured-url] arg0 == u.rt && arg1.URL != nil && arg1.URL != u.urlTemplate && fresh(arg1.URL) && arg1.URL.Scheme == u.urlTemplate.Scheme && arg1.URL.Host == u.urlTemplate.Host && arg1.URL.Path == u.urlTemplate.Path && arg1.URL.RawQuery == rawQuery
+//@   callsite LimitReader?: [C01:bounded-body] arg1 <= 65535
 //@ func copyMsg(m []byte) (b pool.Buffer)
 //@   props C20
 //@   modifies nothing
